@@ -16,7 +16,7 @@ def observe(G, nodes=None, probes=None):
     out['edge_removal'] = getattr(G, 'edge_removal', None)
     out['nodes'] = sorted(((_k(n), snap(a)) for n, a in G.nodes(data=True)), key=lambda x: x[0])
     out['node_order'] = [_k(n) for n in G.nodes()]
-    out['graph'] = copy.deepcopy(G.graph)
+    out['graph'] = snap(G.graph)
     tl = []
     for u, v, d in G.interactions():
         tl.append((_k(u), _k(v), copy.deepcopy(d)))
